@@ -137,14 +137,25 @@ def extract(repo=None, config='default', debug_assertions=True):
             shutil.move(env['ACVERIF_OUT'], out)
         finally:
             shutil.rmtree(tmp, ignore_errors=True)
-        # keep the cache small: drop fact files other than the 12 newest
-        fs = sorted((f for f in os.listdir(CACHE) if f.startswith('facts-')), key=lambda f: os.path.getmtime(os.path.join(CACHE, f)))
-        for f in fs[:-12]:
+        # keep the cache small: drop fact files other than the 48 newest, and never one that was written in the last 30
+        # minutes (a concurrent check of another tree may be about to load it)
+        def _mt(f):
+            try:
+                return os.path.getmtime(os.path.join(CACHE, f))
+            except OSError:
+                return 0.0
+        fs = sorted((f for f in os.listdir(CACHE) if f.startswith('facts-')), key=_mt)
+        now = time.time()
+        gone = set()
+        for f in fs[:-48]:
+            if now - _mt(f) < 1800:
+                continue
             try:
                 os.remove(os.path.join(CACHE, f))
+                gone.add(f)
             except OSError:
                 pass
-        keep = {f[len('facts-'):-len('.json')] for f in fs[-12:]} | {key}
+        keep = {f[len('facts-'):-len('.json')] for f in fs if f not in gone} | {key}
         for f in os.listdir(CACHE):
             if f.startswith('lock-') and f[len('lock-'):] not in keep:
                 try:
@@ -374,8 +385,20 @@ def main(argv):
     nbodies_total = 0
     hashes = {}
     for cfg in configs:
-        fp = extract(repo, cfg)
-        facts = Facts(fp)
+        facts = None
+        for attempt in (1, 2, 3):
+            fp = extract(repo, cfg)
+            try:
+                facts = Facts(fp)
+                break
+            except (FileNotFoundError, json.JSONDecodeError):
+                # the cached fact file vanished or is incomplete (cache shared with concurrent checks of other trees): extract again
+                try:
+                    os.remove(fp)
+                except OSError:
+                    pass
+        if facts is None:
+            raise SystemExit('acverif: fact file could not be loaded after three extractions')
         hashes[cfg] = os.path.basename(fp)
         nbodies_total += len(facts.bodies)
         cx, mod = run_rules(prop, facts, tier, cfg)
